@@ -87,7 +87,8 @@ def _binval(t):
     return None
 
 
-def project(t):
+def project(t, lossless=False):
+    """lossless: keep numerals beyond 31 bits (only for computing event keys; TLC cannot read them)"""
     args = []
     h = t
     while h.ty == Term.COMB:
@@ -107,8 +108,8 @@ def project(t):
     if h.name in ("bit0", "bit1") and len(args) == 1:
         v = _binval(t)
         if v is not None:
-            return ["#bin", ["nat"], [], v] if v < 2 ** 31 else ["#big", [], [], 0]
-    return [h.name, ts, [project(a) for a in args], 0]
+            return ["#bin", ["nat"], [], v] if (v < 2 ** 31 or lossless) else ["#big", [], [], 0]
+    return [h.name, ts, [project(a, lossless) for a in args], 0]
 
 
 def build(n):
@@ -150,7 +151,7 @@ class Log:
 
     def goal(self, src, g, only=None):
         pg = project(g)
-        d = digest(pg)
+        d = digest(project(g, lossless=True))
         if (d, only) in self.seen:
             return None
         self.seen.add((d, only))
